@@ -60,6 +60,8 @@ SNIPPETS = [
     ("delete from an arange", {"a": (4, 4)}, "rows = np.delete(np.arange(4), (1, 2))\nout = a[rows]"),
     ("reshape", {"a": (2, 3)}, "out = a.reshape((3, 2))"),
     ("column with a new axis", {"g": (3,), "a": (3, 3)}, "out = a * g[:, None]"),
+    ("0-d boolean mask, true", {"g": (3,)}, "m = np.zeros_like(g)\nk = g[0] == g[0]\nm[k, 0] = g[k, 1]\nm[k, 1] = -g[k, 0]\nout = m"),
+    ("0-d boolean mask, false", {"g": (3,)}, "m = np.zeros_like(g)\nk = g[0] != g[0]\nm[k, 0] = g[k, 1]\nm[~k, 2] = 7\nm[k & ~k, 1] = 3\nout = m"),
 ]
 
 
@@ -80,6 +82,7 @@ def run_tables(prog, src: str, args: dict):
         env[k] = qf.Table(v.shape, {idx: LP.const(Fraction(int(v[idx]))) for idx in np.ndindex(v.shape)})
     it = qf.Interp(prog, None, {})
     it.ratio_mode = True  # np.average is part of the vocabulary in this mode only
+    it.generic = True  # comparisons between polynomials are decided (constants here)
     it.block(ast.parse(src).body, env)
     return env["out"]
 
